@@ -277,7 +277,7 @@ def fold_rule(ctx, rule):
             method = find_method(F, trait, mname, owner)
             host, fbi, _ = found[0]
             ok3, why3 = True, ""
-            if common.path_to_return_avoiding(host, [fbi]):
+            if common.path_to_return_avoiding(host, [fbi]) and not _only_through_empty_first_draw(host, fbi):
                 ok3, why3 = False, "%s can return a value without passing binary_operator_fold: some operator / operand combinations are decided by other code than the operator table" % host.path.split("::")[-1]
             elif host is not method:
                 via = [bi for bi, t in method.calls() if callee_def(t) == host.path]
@@ -285,6 +285,24 @@ def fold_rule(ctx, rule):
                     ok3, why3 = False, "visit_binary_expression can return a value without passing the helper that folds"
             rep.ob(rule, "fold::caller::" + mname + "::every-path-through-fold", ok3, why3, method.loc(),
                    how="no non-error path from entry to return avoids the fold call")
+
+
+def _only_through_empty_first_draw(host, fbi):
+    """the fold is called once per operand in a loop over `once(first).chain(rest)`: the only way round the call is the loop's `next()`
+    yielding None at once, which an iterator that starts with once(..) never does; every further round passes the fold again"""
+    draws = []
+    for bi, t in host.calls():
+        if t["callee"].get("name") == "next" and t["args"]:
+            names = {host.term(d[1])["callee"].get("name") for d, _ in kind_deep(host, t["args"][0]) if d[0] == "call"}
+            if "once" in names and "chain" in names and not names & {"skip", "filter", "skip_while", "filter_map", "step_by", "rev"}:
+                draws.append(bi)
+    if len(draws) != 1:
+        return False
+    n = draws[0]
+    if common.path_to_return_avoiding(host, [fbi, n]):
+        return False          # some way round avoids the loop altogether
+    # going round again without the fold?
+    return n not in host.reachable_from_succs(n, avoid=[fbi])
 
 
 def kind_deep(fn, operand, depth=0, seen=None):
